@@ -125,8 +125,19 @@ fn exec_one(sc: &Scenario, ctx: &mut Ctx) -> Vec<Violation> {
         return Vec::new();
     }
     let mut out = Vec::new();
-    let mut r: &[u8] = input;
-    let v = call_decoder(ep, &mut r, &mut out, &OptSpec::default(), &RawSpec::default());
+    let (v, _) = run_with_reader(
+        ep,
+        input,
+        if sc.l("src_script").is_empty() { RK_SLICE } else { RK_SIM },
+        sc.l("src_script"),
+        crate::env::Faults::none(),
+        0,
+        &mut out,
+        &OptSpec::default(),
+        &RawSpec::default(),
+        0,
+        0,
+    );
     let kind = sc.note.split(" | ").next().unwrap_or("?").to_string();
     // the lenient reference: it knows exactly the rules C17 lists
     let lz2: Vec<u8>;
@@ -241,8 +252,14 @@ impl Property for C17 {
                 )];
             }
         }
+        let scripts: [Vec<u64>; 4] = [vec![], vec![1], vec![t.range(2, 9)], vec![t.range(1, 4), t.range(1, 40), 1]];
+        let mut case_no = t.below(4) as usize;
         for (bytes, kind, note) in variants(t, &b, full) {
             let mut sc = Scenario::new("c17");
+            case_no += 1;
+            if !scripts[case_no % 4].is_empty() {
+                sc.set_l("src_script", scripts[case_no % 4].clone());
+            }
             sc.set_i("ep", ep);
             if ep == EP_XZ {
                 let plan = XzPlan {
